@@ -108,8 +108,38 @@ fn same(vm: &Side, dv: &Side, with_tags: bool) -> bool {
 
 /// Explains a disagreement by a listed known finding, if its predicate holds for this case.
 fn explain(text: &str, vm: &Side, dv: &Side, with_tags: bool) -> Option<&'static str> {
-    let _ = (text, vm, dv, with_tags);
+    // known: the VM applies `#t = e?` / `#t = e*` as "match e? then tag the last pair", the generated
+    // parser tags inside the optional / each iteration. Explained only if the token streams are
+    // identical, only the tags differ, and the grammar has a tag directly over an optional or a repetition.
+    if !with_tags {
+        return None;
+    }
+    if let (Side::Res(Parsed::Ok { toks: t1, tags: g1 }), Side::Res(Parsed::Ok { toks: t2, tags: g2 })) = (vm, dv) {
+        if t1 == t2 && g1 != g2 && tag_over_opt_or_rep(text) {
+            return Some("c02-vm-tags-optional-and-repetition-differently");
+        }
+    }
     None
+}
+
+#[cfg(feature = "grammar-extras")]
+fn tag_over_opt_or_rep(text: &str) -> bool {
+    use pest_meta::optimizer::OptimizedExpr as O;
+    let Ok((_, rules)) = pest_meta::parse_and_optimize(text) else { return false };
+    fn walk(e: &O) -> bool {
+        match e {
+            O::NodeTag(inner, _) => matches!(**inner, O::Opt(_) | O::Rep(_)) || walk(inner),
+            O::PosPred(i) | O::NegPred(i) | O::Opt(i) | O::Rep(i) | O::RepOnce(i) | O::Push(i) | O::RestoreOnErr(i) => walk(i),
+            O::Seq(a, b) | O::Choice(a, b) => walk(a) || walk(b),
+            _ => false,
+        }
+    }
+    rules.iter().any(|r| walk(&r.expr))
+}
+
+#[cfg(not(feature = "grammar-extras"))]
+fn tag_over_opt_or_rep(_text: &str) -> bool {
+    false
 }
 
 pub fn batch_main(entries: &[Entry]) {
